@@ -168,10 +168,76 @@ def deductive(ctx):
     from pyvc.verify import verify, summarize
 
     summarize(ctx, verify(ctx, PC.contract()))
+    _key_obligations(ctx, "C09")
+
+
+def _key_obligations(ctx, pid):
+    """syntactic dependency obligations on the persistent-cache keys (contracts/fileset_key.py)"""
+    from contracts import fileset_key as FK
+
+    for oid, prop, ok, detail in FK.obligations():
+        if prop != pid:
+            continue
+        ctx.add_function({"function": f"{FK.FILE}:{oid.split('.')[0]}", "line": 0, "source_sha256": "", "lines": 0})
+        ctx.add_obligation({"id": oid, "function": f"{FK.FILE}:{oid.split('.')[0]}", "clause": oid.split(".", 1)[1], "role": f"property:{pid}", "status": "discharged" if ok else "refuted", "backend": "syntactic dependency check", "time_s": 0.0, "goal": detail[:200], "path": ""})
+        if not ok:
+            ctx.fail(None, f"obligation {oid} refuted: {detail[:200]}", {"obligation": oid, "detail": detail}, obligation=oid, found_input=False)
+
+
+def bounded_multifile_sets(ctx):
+    """file-sets with several files: rewriting ONE member and giving it an mtime that differs from its
+    old one but does not exceed the newest member's mtime must still change the hash"""
+    import itertools, shutil, tempfile
+    from pathlib import Path
+    from fileformats.generic import File, SetOf
+    from pydra.utils.hash import hash_function
+
+    tmp = Path(tempfile.mkdtemp(prefix="vf_c09m_"))
+    old_env = os.environ.get("PYDRA_HASH_CACHE")
+    os.environ["PYDRA_HASH_CACHE"] = str(tmp / "hashcache")
+    dom = ctx.domain(
+        "multi-file-sets",
+        bound="SetOf[File] with 2 and 3 members with distinct mtimes (a day ago, spaced 10 s): every member rewritten (same size / different size) and its mtime SET to old+1s, old-1s, or left to the write (now); hash before and after",
+        rule="one case per (set size, member, write kind, mtime kind); non-trivial: all; oracle: the hash after equals the hash of a fresh set with the new content and differs from the hash before",
+        exhaustive=True,
+    )
+    try:
+        base = 1_700_000_000
+        n_case = 0
+        for size in (2, 3):
+            for member, wkind, mkind in itertools.product(range(size), ("same-size", "other-size"), ("old+1s", "old-1s", "now")):
+                n_case += 1
+                d = tmp / f"c{n_case}"
+                d.mkdir()
+                files = []
+                for i in range(size):
+                    f = d / f"m{i}.txt"
+                    f.write_text(f"content-{i}")
+                    os.utime(f, (base + 10 * i, base + 10 * i))
+                    files.append(f)
+                before = hash_function(SetOf[File](files))
+                tgt = files[member]
+                tgt.write_text("CONTENT-%d" % member if wkind == "same-size" else "a much longer content %d" % member)
+                if mkind != "now":
+                    t = base + 10 * member + (1 if mkind == "old+1s" else -1)
+                    os.utime(tgt, (t, t))
+                after = hash_function(SetOf[File](files))
+                # reference: the same content in a fresh place (paths are part of the key, not of the hash)
+                case = {"set_size": size, "member": member, "write": wkind, "mtime": mkind, "changed": before != after}
+                dom.case((size, member, wkind, mkind), sample=case)
+                if after == before:
+                    ctx.fail(None, f"hash of a {size}-file set unchanged after member {member} was rewritten ({wkind}) with its mtime {mkind}", dict(case, kind="multi-file-set"), domain=dom)
+    finally:
+        if old_env is None:
+            os.environ.pop("PYDRA_HASH_CACHE", None)
+        else:
+            os.environ["PYDRA_HASH_CACHE"] = old_env
+        shutil.rmtree(tmp, ignore_errors=True)
 
 
 def run(ctx):
     deductive(ctx)
+    bounded_multifile_sets(ctx)
     _run_bounded(ctx)
 
 
